@@ -269,6 +269,81 @@ def run_lattice(case):
     return R
 
 
+# ------------------------------------------------------------------------------------------ C10.sources
+def parse_nfile(fn, n, conv):
+    """Independent reader of the documented neighbour/weight file format: list (frames) of list (id order) of lists."""
+    lines = [x for x in open(fn).read().split("\n") if x.strip()]
+    frames, k = [], 0
+    while k < len(lines):
+        k += 1  # header
+        fr = [None] * n
+        for _ in range(n):
+            it = lines[k].split()
+            k += 1
+            fr[int(it[0]) - 1] = [conv(x) for x in it[2:2 + int(it[1])]]
+        frames.append(fr)
+    return frames
+
+
+def gen_sources(tier, seed):
+    """Neighbour (and weight) files produced by the library's own neighbour definitions, two frames."""
+    box = [6.0, 6.0]
+    for cell in ("orth", "tri"):
+        H = A.hmat_tri(box, [0.0] if cell == "orth" else [1.5])
+        sites = [np.array(A.jl_points(seed, 3, 2, box, tag=f"c10s{f}")) @ (H / 6.0) for f in range(2)]
+        for size in (9, 8, 7):
+            for keep in itertools.combinations(range(9), size):
+                frames = [s[list(keep)].tolist() for s in sites]
+                for src in (["nnearest", 1], ["nnearest", 3], ["nnearest", 6], ["cutoff", 2.9], ["voronoi", "weighted"], ["voronoi", "plain"]):
+                    for l in ((4, 6) if tier == "quick" else LS):
+                        if tier == "quick" and size == 7 and (src[0] != "voronoi" or l != 6):
+                            continue
+                        yield {"cell": cell, "H": H.tolist(), "frames": frames, "src": src, "l": l, "ppp": [1, 1]}
+
+
+def run_sources(case):
+    from PyMatterSim.neighbors.calculate_neighbors import Nnearests, cutoffneighbors
+    from PyMatterSim.neighbors.freud_neighbors import cal_neighbors
+
+    R = Result()
+    H = np.array(case["H"], float)
+    frames, l, ppp = case["frames"], case["l"], case["ppp"]
+    n = len(frames[0])
+    kind, arg = case["src"]
+    sig = {"cell": case["cell"], "source": kind, "arg": str(arg)}
+    snaps = mk_snaps(frames, H, [1] * n)
+    wfile = ""
+    if kind == "nnearest":
+        Nnearests(snaps, N=int(arg), ppp=np.array(ppp), fnfile="c10_src.dat")
+        nfile = "c10_src.dat"
+    elif kind == "cutoff":
+        cutoffneighbors(snaps, r_cut=float(arg), ppp=np.array(ppp), fnfile="c10_src.dat")
+        nfile = "c10_src.dat"
+    else:
+        cal_neighbors(snaps, "c10_vor")
+        nfile = "c10_vor.neighbor.dat"
+        wfile = "c10_vor.edgelength.dat" if arg == "weighted" else ""
+    nls = parse_nfile(nfile, n, lambda x: int(x) - 1)
+    wts = parse_nfile(wfile, n, float) if wfile else None
+    if any(i in x for fr in nls for i, x in enumerate(fr)):
+        return R.screen()  # Voronoi of a small periodic system: a particle neighbouring its own image has no bond direction
+    if any(len(x) == 0 for fr in nls for x in fr) or (wts is not None and any(sum(abs(v) for v in x) == 0 for fr in wts for x in fr)):
+        return R.screen()  # a particle without neighbours is outside the property's domain
+    from PyMatterSim.static.boo import boo_2d
+
+    b = boo_2d(snaps, l, nfile, weightsfile=wfile, ppp=np.array(ppp), Nmax=max(len(x) for fr in nls for x in fr))
+    ref = np.array([B.ref_psi(frames[f], H, ppp, nls[f], l, wts[f] if wts is not None else None) for f in range(len(frames))])
+    if b.ParticlePhi.shape != ref.shape or not close(b.ParticlePhi, ref):
+        R.fail(f"psi_l from a library-written {kind} neighbour file differs from the reference by {maxdiff(b.ParticlePhi, ref):.3e}",
+               sub="C10.weights" if wts is not None else "C10.psi", sig=dict(sig, clause="psi"), exp=ref, obs=b.ParticlePhi)
+    if np.any(np.abs(b.ParticlePhi) > 1 + 1e-12):
+        R.fail("modulus exceeds one", sub="C10.modulus", sig=dict(sig, clause="modulus"))
+    R.outcome(b.ParticlePhi, nd=9)
+    R.nontrivial = bool(np.abs(ref).max() > 1e-9)
+    R.elem = ref.size
+    return R
+
+
 # ------------------------------------------------------------------------------------------ C10.rotation
 ALPHAS = [2 * math.pi / 7, 1.0, math.pi / 3]
 
@@ -294,7 +369,7 @@ def run_rotation(case):
     n, l, nl, W = case["N"], case["l"], case["nl"], case["wts"]
     pos = np.array(case["pos"], float)
     al = ALPHAS[case["ia"]]
-    sig = {"N": n, "wmode": case["wmode"], "ia": case["ia"]}
+    sig = {"N": n, "wmode": case["wmode"]}
     rot = np.array([[math.cos(al), -math.sin(al)], [math.sin(al), math.cos(al)]])
     pos2 = pos @ rot.T
     wts = [W] if W is not None else None
@@ -458,6 +533,10 @@ def subs(tier, seed):
         Sub("C10.rotation", gen_rotation, run_rotation,
             rule="open boundaries, all N=3 topologies (" + ("25-topology N=4 core" if q else "all 2401 N=4 topologies at l in {1,5,6,12}") + ") x l=1..12 x alpha in "
                  "{2pi/7, 1, pi/3} x weights {none, signed}: psi(rotated) == exp(i l alpha) psi (implementation vs implementation) and == reference"),
+        Sub("C10.sources", gen_sources, run_sources,
+            rule="neighbour (and edge-length weight) files written by the library's own N-nearest (N=1,3,6), cutoff and Voronoi routines for all 7-, 8-, 9-subsets "
+                 "of a jittered 3x3 lattice (two frames, orth/tri), parsed by an independent reader; psi_l vs reference, modulus; l in " + ("{4,6}" if q else "1..12")
+                 + "; cases where a particle has no neighbour are screened"),
         Sub("C10.history", gen_history, run_history,
             rule="explicit-state BFS over frame histories (depth <= " + ("3/4" if q else "4/5") + "): appended frame = (configuration, topology, step increment) from 3-5 "
                  "letter alphabets (uneven spacing, even spacing with interval 0.2 and 0.3); per state a fresh boo_2d on fresh files: psi per frame, time_corr "
